@@ -335,11 +335,37 @@ theorem goAll_adjacent_empty_witness :
 loop applied to the complete sweep of /a*/ over "baaac" yields "b","","c"; the generic algorithm "b","c". -/
 theorem fastSplit_witness :
     ¬ (∀ (f : Finder) (units : List Nat),
-        fastSplit units ((idealAll {} f units 0 none false).map (·.idx)) none = genericSplit f units false 4294967295) := by
+        fastSplit units ((idealAll {} f units 0 none false).map (·.idx)) none = genericSplit f units false none) := by
   intro h
   have := h witnessFinder2 [98, 97, 97, 97, 99]
   revert this
   decide
+
+/-- The fast `Symbol.split` loop WITH the one-line repair of fixes/C20-split-empty-match-at-previous-end.diff, applied
+to the complete sweep of the finder, is the generic algorithm (ECMA-262 22.2.6.14): for every leftmost finder whose
+captures exec reports unchanged (`CapsAgree`), no limit, code-unit mode.  (About the patched loop; the loop in /repo
+today is refuted by `fastSplit_witness`.) -/
+theorem fastSplitFixed_eq_generic_patched (f : Finder) (units : List Nat)
+    (hf : Leftmost f units.length) (hc : CapsAgree f units) :
+    fastSplitFixed units ((idealAll ⟨true, false, false⟩ f units 0 none false).map (·.idx)) none
+      = genericSplit f units false none := by
+  by_cases hn : units.length = 0
+  · simp only [fastSplitFixed, genericSplit, hn]
+    simp only [idealAll, hn]
+    cases h0 : f 0 with
+    | none => simp [idealAllLoop, matchAt, h0]
+    | some r =>
+      have hin := hf.inside 0 r h0
+      have hs : r.start = 0 := by omega
+      simp [idealAllLoop, matchAt, h0, hs, hn]
+  · have hmain := split_main f units hf hc (units.length + 1) 0 0 [] 0 (2 * units.length + 4) (units.length + 2)
+      (by omega) (by omega) (by omega) (by omega)
+    have hne : (units.length == 0) = false := by simp [hn]
+    simp only [fastSplitFixed, genericSplit, hne]
+    simp only [G, S, F, finish, idealAll] at hmain ⊢
+    rw [hmain]
+    rfl
+
 
 /-- Fast `Symbol.replace` accumulation (`stringReplace`: copy the piece before each match when
 `start != lastIndex`, then the replacement, then the tail when `lastIndex != length`) = the generic
